@@ -1348,7 +1348,8 @@ where
                 while self.index < entries.len() {
                     let entry = &entries[self.index];
                     self.index += 1;
-                    if entry.hash != 0 {
+                    // Skip empty slots (0) and tombstones left by remove() (u64::MAX)
+                    if entry.hash != 0 && entry.hash != u64::MAX {
                         return Some((&entry.key, &entry.value));
                     }
                 }
